@@ -59,7 +59,7 @@ def setup():
 
     seams.CLOCK.install()
     SEEDS = {s.name: s for s in seeds.all_seeds()}
-    BASE = {name: s.build() for name, s in SEEDS.items()}
+    BASE = {name: s.base_writer().getvalue() for name, s in SEEDS.items()}
     try:
         resource.setrlimit(resource.RLIMIT_AS, (6 << 30, resource.RLIM_INFINITY))
     except (ValueError, OSError):
@@ -144,6 +144,8 @@ def structural_faults(seed):
                 yield ["ref", oid, path, "loop3"]
                 yield ["ref", oid, path, "rho1"]
                 yield ["ref", oid, path, "rho2"]
+                yield ["ref", oid, path, "selfarray"]
+                yield ["ref", oid, path, "selfdict"]
                 target = seed.objects.get(x.num)
                 if isinstance(target, Stream):
                     yield ["ref", oid, path, "stream->dict"]
@@ -157,15 +159,41 @@ def payload_faults(seed):
         if not isinstance(v, Stream):
             continue
         n = len(v.raw)
-        pos = sorted(set(int(i * (n - 1) / 15) for i in range(16))) if n > 1 else ([0] if n else [])
+        pos = sorted(set(int(i * (n - 1) / 15) for i in range(16)) | set(range(min(n, 6)))) if n > 1 else ([0] if n else [])
         for p in pos:
             yield ["flip", oid, p]
-        for p in pos:
-            yield ["flip", oid, p, 0x10]
+        for mask in (0x10, 0x01, 0x40, 0x80):
+            for p in pos:
+                yield ["flip", oid, p, mask]
         for p in pos:
             yield ["cut", oid, p]
         for how in ("+1", "-1", "0", "huge"):
             yield ["length", oid, how]
+    # dictionaries of the streams the writer adds itself (object stream, cross-reference stream)
+    for kind, d in sorted(seed.container_dicts().items()):
+        for path, x, ckind in walk(d, []):
+            if path == ["Length"]:
+                continue
+            ty = type_of(x, seed.objects)
+            for u in TYPES:
+                if u != ty:
+                    yield ["cdict", kind, path, "replace", u]
+            for vname in VARIANTS:
+                yield ["cdict", kind, path, "variant", vname]
+            if ckind == "dict":
+                yield ["cdict", kind, path, "remove", ""]
+    # the tail of a container payload cut out of the file (later offsets go stale)
+    for num, pos, n in seed.container_streams():
+        for p in sorted(set(int(i * (n - 1) / 7) for i in range(8))) if n > 1 else []:
+            yield ["ccut", num, p]
+    # a trailer whose /XRefStm points at its own cross-reference table
+    if seed.form == "table" and seed.encrypt is None:
+        yield ["xrefstmloop", 0]
+    # /Length given as a reference to the stream itself / a missing object / a reference loop
+    for oid in sorted(seed.objects):
+        if isinstance(seed.objects[oid], Stream):
+            for how in ("self", "missing", "loop1"):
+                yield ["lengthref", oid, how]
     # inline image dictionaries live inside content streams: every value replaced by a value of each other type
     for oid in sorted(seed.objects):
         v = seed.objects[oid]
@@ -219,6 +247,46 @@ def apply_fault(seed, f):
     kind = f[0]
     if kind == "truncate":
         return BASE[seed.name][: f[1]]
+    if kind == "cdict":
+        _, ckind, path, how, arg = f
+
+        def hook(k, d):
+            if k != ckind:
+                return
+            if how == "replace":
+                set_path(d, path, lambda c, key: c.__setitem__(key, copy.deepcopy(SAMPLE[arg])))
+            elif how == "variant":
+                set_path(d, path, lambda c, key: c.__setitem__(key, copy.deepcopy(VARIANTS[arg])))
+            else:
+                set_path(d, path, lambda c, key: c.__delitem__(key))
+
+        return seed.build(None, hook)
+    if kind == "ccut":
+        b = bytearray(BASE[seed.name])
+        (pos, n) = [(p, ln) for (num, p, ln) in seed.container_streams() if num == f[1]][0]
+        del b[pos + f[2] : pos + n]
+        return bytes(b)
+    if kind == "xrefstmloop":
+        data = seed.writer().getvalue()
+        off = int(data[data.rindex(b"startxref") + 9 :].split()[0])
+        te = dict(seed.trailer_extra or {})
+        te[b"XRefStm"] = off
+        from sim.docs import build_pdf
+
+        return build_pdf(seed.objects, seed.root, info=seed.info, form=seed.form, trailer_extra=te).getvalue()
+    if kind == "lengthref":
+        objs = dict(seed.objects)
+        st = copy.deepcopy(objs[f[1]])
+        nxt = max(objs) + 1
+        if f[2] == "self":
+            st.dict[b"Length"] = Ref(f[1], 0)
+        elif f[2] == "missing":
+            st.dict[b"Length"] = Ref(9999, 0)
+        else:
+            objs[nxt] = Ref(nxt, 0)
+            st.dict[b"Length"] = Ref(nxt, 0)
+        objs[f[1]] = st
+        return seed.build(objs)
     if kind == "prevloop":
         data = seed.writer().getvalue()
         off = int(data[data.rindex(b"startxref") + 9 :].split()[0])
@@ -290,6 +358,13 @@ def apply_fault(seed, f):
                 objs[nxt + 1] = Ref(nxt + 2, 0)
                 objs[nxt + 2] = Ref(nxt, 0)
                 new = Ref(nxt, 0)
+            elif how == "selfarray":
+                # an array that contains a reference to itself
+                objs[nxt] = [1, Ref(nxt, 0), 2]
+                new = Ref(nxt, 0)
+            elif how == "selfdict":
+                objs[nxt] = {b"Type": Name(b"X"), b"Self": Ref(nxt, 0), b"Kids": [Ref(nxt, 0)]}
+                new = Ref(nxt, 0)
             elif how == "rho1":
                 # a chain that runs *into* a cycle it is not part of: A -> B, B -> B
                 objs[nxt] = Ref(nxt + 1, 0)
@@ -342,11 +417,19 @@ def role_of(seed, f):
     kind = f[0]
     if kind == "truncate":
         return "file"
-    r = seed.roles.get(f[1], "obj%d" % f[1])
+    r = seed.roles.get(f[1], "obj%s" % (f[1],)) if isinstance(f[1], int) else str(f[1])
     if kind == "xrefcycle":
         return "Container.<xref entries>"
     if kind == "prevloop":
         return "Trailer.Prev"
+    if kind == "xrefstmloop":
+        return "Trailer.XRefStm"
+    if kind == "cdict":
+        return "Container:%s.%s" % (f[1], ".".join("[]" if isinstance(p, int) else p for p in f[2]))
+    if kind == "ccut":
+        return "Container.<payload>"
+    if kind == "lengthref":
+        return seed.roles.get(f[1], "obj%d" % f[1]) + ".Length"
     if kind == "inline":
         return "InlineImage.<dict>"
     if kind == "cflip":
@@ -379,6 +462,14 @@ def kind_of(f):
         return "xref-entries-cycle"
     if f[0] == "prevloop":
         return "prev-points-at-itself"
+    if f[0] == "xrefstmloop":
+        return "xrefstm-points-at-itself"
+    if f[0] == "cdict":
+        return "container-%s:%s" % (f[3], f[4])
+    if f[0] == "ccut":
+        return "container-cut"
+    if f[0] == "lengthref":
+        return "length-ref:" + f[2]
     if f[0] == "inline":
         return "inline:%s" % f[3]
     return f[0]
@@ -433,7 +524,7 @@ def run(tape, ctx, item=None):
     devs = []
     fk, role = kind_of(f), role_of(seed, f)
     ctx.fault(f[0] if f[0] not in ("replace", "ref", "variant") else fk)
-    ctx.probe({"truncate": "truncation", "replace": "replace", "variant": "replace", "xrefcycle": "ref-loop", "prevloop": "ref-loop", "inline": "replace", "remove": "remove", "ref": "ref-loop" if f[0] == "ref" and f[3][:3] in ("loo", "rho") else "replace", "flip": "payload", "cut": "payload", "length": "payload", "cflip": "payload"}[f[0]])
+    ctx.probe({"truncate": "truncation", "replace": "replace", "variant": "replace", "xrefcycle": "ref-loop", "prevloop": "ref-loop", "xrefstmloop": "ref-loop", "inline": "replace", "cdict": "replace", "ccut": "payload", "lengthref": "ref-loop", "remove": "remove", "ref": "ref-loop" if f[0] == "ref" and f[3][:3] in ("loo", "rho") else "replace", "flip": "payload", "cut": "payload", "length": "payload", "cflip": "payload"}[f[0]])
     outcomes = []
     for name, fn in entry_points(data):
         seams.CLOCK.start(budget)
@@ -529,9 +620,12 @@ def items(job):
         for k in range(job["part"], n, job["nparts"]):
             yield {"seed": job["seed"], "f": ["truncate", k]}
         return
+    nstruct = sum(1 for _ in structural_faults(SEEDS[job["seed"]]))
     for i, it in enumerate(all_items(job["seed"])):
         if i % job["nparts"] != job["part"]:
             continue
-        if (i // job["nparts"]) % job["stride"] != job["phase"] % job["stride"]:
+        # payload / container / trailer faults are few and each reaches its own code: every tier runs all of them;
+        # the quick tier strides only the (value x type) grid of structural faults
+        if i < nstruct and (i // job["nparts"]) % job["stride"] != job["phase"] % job["stride"]:
             continue
         yield it
